@@ -464,6 +464,7 @@ type FuncContract struct {
 	Unroll    map[int]int
 	GhostSets []*GhostSet
 	Lemmas    []*Clause // "assert" hints, unused
+	CbInv     []*Clause // callback invariants (closures)
 	TrustNote string
 	recvName  string
 }
@@ -500,7 +501,7 @@ type Contracts struct {
 	Assume []string // textual list of assumed contracts for evidence
 }
 
-var kwRe = regexp.MustCompile(`^(func|iface|extern|requires|ensures|modifies|loop|pred|pure|ghostset|ghost|trusted|inline|props|nobounds|noframe|free|mode|opaque)\b`)
+var kwRe = regexp.MustCompile(`^(func|iface|extern|requires|ensures|modifies|loop|pred|pure|ghostset|ghost|trusted|inline|props|nobounds|noframe|free|mode|opaque|invariant)\b`)
 
 func loadContracts(root string, pkgDirs map[string]string) (*Contracts, error) {
 	cs := &Contracts{Funcs: map[string]*FuncContract{}, Pures: map[string]*PureFunc{}}
@@ -619,6 +620,18 @@ func (cs *Contracts) parseFile(pkgPath, fn, data string) error {
 			cur.Mode = rest
 		case "props":
 			cur.Props = strings.Fields(rest)
+		case "invariant":
+			// callback invariant of a closure: assumed at its entry, proved at its exit, proved at
+			// every call that hands the closure to a callee which may run it, assumed afterwards
+			src, props := splitProps(rest)
+			e, err := ParseSpecExpr(src)
+			if err != nil {
+				return fmt.Errorf("%s: %s: %v", fn, ln, err)
+			}
+			if cur == nil {
+				return fmt.Errorf("%s: clause outside func: %s", fn, ln)
+			}
+			cur.CbInv = append(cur.CbInv, &Clause{Kind: kw, Src: src, E: e, Props: props, Line: ln})
 		case "requires", "ensures":
 			src, props := splitProps(rest)
 			e, err := ParseSpecExpr(src)
